@@ -535,6 +535,11 @@ func (e *c09Env) op(tok string) string {
 		e.pool.PreAllocWorkerSize(num(1))
 		e.settle()
 		return "pre"
+	case "jam":
+		// set while every worker sits in a gated job: the jam rule then depends on nothing that is still moving
+		e.pool.SetWorkerJamDuration(c09Dur(num(1)))
+		e.settle()
+		return "jam"
 	case "nh":
 		e.pool.SetPanicHandler(nil)
 		return "nh"
@@ -878,8 +883,8 @@ func c09Gen(tier string, rng *rand.Rand, emit func(string)) map[string]interface
 
 	// (6) the maximum: PreAlloc beyond it, jam rule at it, spawn loop overtaken by PreAlloc
 	sched("max=2 sb=1 batch=0 c=4 b=0", "pre:3", "w:2/0/0", "pre:5", "w:2/0/0", "s:0:g", "s:1:g", "s:2:g", "w:2/2/0", "r:0", "r:1", "r:2", "w:2/0/3")
-	sched("max=1 sb=1 batch=0 c=4 b=0 jam=5", "s:0:g", "w:1/1/0", "sleep:20", "s:1:f", "w:1/1/0", "sleep:20", "s:2:f", "w:1/1/0", "r:0", "w:1/0/3")
-	sched("max=2 sb=1 batch=0 c=4 b=0 jam=5", "s:0:g", "w:1/1/0", "sleep:20", "s:1:g", "w:2/2/0", "sleep:20", "s:2:f", "w:2/2/0", "r:0", "r:1", "w:2/0/3")
+	sched("max=1 sb=1 batch=0 c=4 b=0", "s:0:g", "w:1/1/0", "jam:5", "sleep:20", "s:1:f", "w:1/1/0", "sleep:20", "s:2:f", "w:1/1/0", "jam:0", "r:0", "w:1/0/3")
+	sched("max=2 sb=1 batch=0 c=4 b=0", "s:0:g", "w:1/1/0", "jam:5", "sleep:20", "s:1:g", "w:2/2/0", "sleep:20", "s:2:f", "w:2/2/0", "jam:0", "r:0", "r:1", "w:2/0/3")
 	sched("max=2 sb=2 batch=0 c=4 b=0", "park:tryspawn:1", "s:0:g", "wp:tryspawn:1", "pre:2", "w:2/1/0", "rel:tryspawn", "w:2/1/0", "r:0", "w:2/0/1")
 	sched("max=3 sb=3 batch=0 c=4 b=0", "s:0:g", "s:1:g", "s:2:g", "w:3/3/0", "s:3:f", "r:1", "w:3/2/2", "r:0", "r:2", "w:3/0/4")
 
